@@ -111,7 +111,7 @@ func runCorpusChild(def *propDef, dir, repo string) int {
 		if o.Status == Undecided {
 			und++
 		}
-		if o.Status != Note {
+		if o.Status != Note || o.Located {
 			per[o.Rule]++
 		}
 	}
